@@ -278,13 +278,17 @@ def check_dispatch(ctx: Ctx):
                     ctx.decide("R05.1", f, out.node, construct, "dispatch evaluable", None if out.decisions else False, {"outcome": out.kind, "exc": out.exc})
                     continue
                 rows += 1
-                want_be = given if given else ("cc3d" if ndim >= 3 else "scipy")
+                # the property fixes the default for 1-D to 3-D input; what a default object does with more dimensions is
+                # outside of it (any single library is accepted there)
+                want_be = given if given else ("cc3d" if ndim == 3 else "scipy" if ndim < 3 else None)
                 calls = it.root.cca_calls
                 sides = sorted(c[0].side for c in calls if isinstance(c[0], AArr))
                 want_sides = sorted(s for s, e in (("PRED", pe), ("REF", re_)) if not e)
                 ctx.decide("R05.1", f, out.node, construct + ":sides", "connected components are computed exactly for the non-empty sides", sides == want_sides, {"got": sides})
                 bes = {c[1] if isinstance(c[1], str) else repr(c[1]) for c in calls}
-                if calls:
+                if calls and want_be is None:
+                    ctx.decide("R05.1", f, out.node, construct + ":backend", "one library labels both sides (default backend beyond three dimensions: not fixed by the property)", len(bes) == 1, {"got": sorted(bes)}, nontrivial=False)
+                elif calls:
                     ctx.decide("R05.1", f, out.node, construct + ":backend", f"backend used is {want_be} for both sides", (bes == {lib_of[want_be]}) if want_be in lib_of else None, {"got": sorted(bes), "library_of_backend": lib_of.get(want_be)})
                 if len(it.root.pair_calls) != 1:
                     ctx.undecided("R05.3", f, out.node, construct, "result pair construction not observed")
@@ -309,7 +313,7 @@ def check_dispatch(ctx: Ctx):
                         arg = it.root.fit_calls[-1][0] if it.root.fit_calls else None
                         srcs = _amax_sources(arg)
                         want_src = sorted(x for x in (("PRED" if pe else "CC_PRED"), ("REF" if re_ else "CC_REF")))
-                        ctx.decide("R05.3", f, pnode, c2, "output dtype = smallest fitting uint of the maximum over both labelled outputs", sorted(srcs) == want_src and _is_max_tree(arg), {"sized_from": sorted(srcs), "expression": repr(arg)[:120]})
+                        ctx.decide("R05.3", f, pnode, c2, "output dtype = smallest fitting uint of the maximum over both labelled outputs", {x for x in want_src if x.startswith("CC_")} <= set(srcs) <= set(want_src) and _is_max_tree(arg), {"sized_from": sorted(srcs), "expression": repr(arg)[:120]})
                     else:
                         txt = ct.name if isinstance(ct, Sym) else repr(ct)
                         narrow = isinstance(ct, Sym) and ct.name.startswith("dtypeof:")
@@ -339,7 +343,18 @@ def check_dispatch(ctx: Ctx):
                 ctx.undecided("R05.1", f, f.node, construct, "second call on the same object not evaluable")
                 continue
             hist += 1
-            wb = given if given else ("cc3d" if nd2 >= 3 else "scipy")
+            wb = given if given else ("cc3d" if nd2 == 3 else "scipy" if nd2 < 3 else None)
+            if wb is None:
+                # beyond three dimensions the default is not fixed by the property: compare with a fresh object's run
+                fresh_obj = new_approximator(prog, cls, None)
+                pair = Obj(spcls, {"n_dim": nd2, "_prediction_arr": AArr("PRED", False), "_reference_arr": AArr("REF", False), "_pred_labels": (Sym("a"),), "_ref_labels": (Sym("b"), Sym("c"))})
+                it_f = ApproxInterp(prog, f, {pp: pair}, self_obj=fresh_obj)
+                it_f.root.no_inline = {fit.qual, ucls.lookup("__init__").qual}
+                it_f.root.lib_as_cc = True
+                o_f = it_f.run()
+                fresh = sorted({c[1] if isinstance(c[1], str) else repr(c[1]) for c in it_f.root.cca_calls}) if (o_f.kind == "return" and not o_f.decisions) else None
+                ctx.decide("R05.1", f, f.node, construct, "the second call on the same object uses the backend a fresh object would", (seen[1] == fresh) if fresh is not None else None, {"first_call": seen[0], "second_call": seen[1], "fresh_object": fresh})
+                continue
             want = [lib_of.get(wb)]
             ctx.decide("R05.1", f, f.node, construct, f"the second call on the same object uses backend {wb} (as a fresh object would)", (seen[1] == want) if want[0] else None, {"first_call": seen[0], "second_call": seen[1]})
     if hist < 12:
@@ -348,6 +363,10 @@ def check_dispatch(ctx: Ctx):
 
 def _is_max_tree(t) -> bool:
     """max(...) / np.maximum(...) nested over array maxima only (no min, no arithmetic)"""
+    if isinstance(t, Sym) and t.name.startswith("N_"):
+        return True
+    if isinstance(t, int) and not isinstance(t, bool) and t == 0:
+        return True  # an empty side has no label
     if isinstance(t, Tagged):
         if t.name == "amax":
             return True
@@ -361,6 +380,8 @@ def _is_max_tree(t) -> bool:
 
 def _amax_sources(t) -> list:
     out = []
+    if isinstance(t, Sym) and t.name.startswith("N_"):
+        return ["CC_" + t.name[2:]]  # the component count of a side is the largest label of its labelled output
     if isinstance(t, Tagged):
         if t.name == "amax" and t.args and isinstance(t.args[0], AArr):
             out.append(t.args[0].side)
@@ -518,7 +539,10 @@ def check_semantic_dtype(ctx: Ctx):
     before the connected-component analysis), and the quantity tested for negativity is at most
     every label of both arrays.  approximate_instances is run on symbolic label chains
     P1<..<P3 and R1<R2 (no order between the chains: max/min split into cases)."""
+    from fractions import Fraction
+
     from ..linarith import constraint_slack, prove_nonneg
+    from ..poly import Poly
     from .labelrun import LV, RelabelInterp, chains
 
     prog = ctx.prog
@@ -640,6 +664,8 @@ def check_semantic_dtype(ctx: Ctx):
                 ctx.decide("R05.6", f, out.node, construct + ":set-dtype", "the semantic pair is cast to the fitted dtype before labelling", False if not sd else None, {"set_dtype": repr(sd)[:120]})
                 continue
             arg = fa[int(sd[0][0].name.split("#")[1])][0]
+            if isinstance(arg, (int, Fraction)) and not isinstance(arg, bool):
+                arg = LV(Poly.const(arg))  # a plain number
             if not isinstance(arg, LV):
                 ctx.undecided("R05.6", f, sd[0][1], construct + ":fit-argument", f"fitted value not modelled: {arg!r}")
                 continue
